@@ -123,6 +123,20 @@ MUTANTS = {
     "c15-argmin-cycle": ("pulsarbat/pulsar/phase.py", '        approx = np.min(self.cycle, axis, keepdims=True)\n        dt = (self["int"] - approx) + self["frac"]\n        return dt.argmin(axis, out)', '        return self.cycle.argmin(axis, out)', ["C15"]),
     "c15-rpartition": ("pulsarbat/pulsar/phase.py", '    s_count, sep, s_frac = s_float.partition(".")', '    s_count, sep, s_frac = s_float.rpartition(".")', ["C15"]),
     "c07-no-settle": ("pulsarbat/pulsar/phase.py", "            if np.any(under) or np.any(over):\n                fd += over.astype(float) - under.astype(float)", "            if False:\n                fd += over.astype(float) - under.astype(float)", ["C07"]),
+    "c11-seek-real": ("pulsarbat/readers/_baseband_readers.py", "                    fh.seek(2 * offset)\n", "                    fh.seek(offset)\n", ["C11"]),
+    "c11-lsb-conj": ("pulsarbat/readers/_baseband_readers.py", "            if self.lower_sideband is True:\n                z = z.conj()", "            if self.lower_sideband is True:\n                pass", ["C11"]),
+    "c11-lsb-mask": ("pulsarbat/readers/_baseband_readers.py", "                z[:, self.lower_sideband] = z[:, self.lower_sideband].conj()", "                z[:, ~self.lower_sideband] = z[:, ~self.lower_sideband].conj()", ["C11"]),
+    "c11-stokes-flip": ("pulsarbat/readers/_baseband_readers.py", "        if self.lower_sideband:\n            z = np.flip(z, axis=-1)\n", "", ["C11"]),
+    "c11-guppi-sideband": ("pulsarbat/readers/_baseband_readers.py", "lower_sideband=not header.sideband,", "lower_sideband=bool(header.sideband),", ["C11"]),
+    "c11-stokes-align": ("pulsarbat/readers/_baseband_readers.py", 'freq_align = "top" if lsb else "bottom"', 'freq_align = "bottom" if lsb else "top"', ["C11"]),
+    "c11-stamp": ("pulsarbat/readers/_base.py", "            start_time=self.time_at(offset),\n", "            start_time=self.time_at(0),\n", ["C11"]),
+    "c11-bound-ge": ("pulsarbat/readers/_base.py", "        if offset + n > len(self):", "        if offset + n >= len(self):", ["C11"]),
+    "c11-offset-trunc": ("pulsarbat/readers/_base.py", "offset = int((t * self.sample_rate).to(u.one).round())", "offset = int((t * self.sample_rate).to(u.one))", ["C11"]),
+    "c11-offset-bound": ("pulsarbat/readers/_base.py", "        if offset < 0 or offset > len(self):\n            raise OutOfBoundsError", "        if offset < 0 or offset >= len(self):\n            raise OutOfBoundsError", ["C11"]),
+    "c11-cached-handle": ("pulsarbat/readers/_baseband_readers.py", "        with lock:\n            with self._get_fh() as fh:\n                if self.real_baseband:", "        with lock:\n            if not hasattr(self, '_cached_fh'):\n                self._cached_fh = self._get_fh()\n            with nullcontext(self._cached_fh) as fh:\n                if self.real_baseband:", ["C11"]),
+    "c11-neg-n": ("pulsarbat/readers/_base.py", "        if (n := operator.index(n)) < 0:\n            raise ValueError", "        if (n := abs(operator.index(n))) < 0:\n            raise ValueError", ["C11"]),
+    "c11-real-len": ("pulsarbat/readers/_baseband_readers.py", "                _length = fh.shape[0] // 2\n", "                _length = (fh.shape[0] + 1) // 2\n", ["C11"]),
+    "c11-dask-eager": ("pulsarbat/readers/_base.py", "            z = da.from_delayed(delayed_read(offset, n, **kwargs),", "            z = da.from_delayed(dask.delayed(self._read_array(offset, n, **kwargs)),", ["C11"]),
     "c08-phasepol-domain": ("pulsarbat/pulsar/predictor.py", '        polynomial = self["poly"][index](Polynomial([dt, 1]))\n        a = int(polynomial(0) // 1)\n\n        return polynomial - a, pb.Phase(rphase + a)', '        polynomial = self["poly"][index].copy()\n        polynomial.domain -= dt\n        a = int(polynomial(0) // 1)\n\n        return (polynomial - a).convert(), pb.Phase(rphase + a)', ["C08"]),
     "c08-domain": ("pulsarbat/pulsar/predictor.py", "poly=Polynomial(coeffs, domain=[-60, +60]).convert(),", "poly=Polynomial(coeffs, domain=[-30, +30]).convert(),", ["C08"]),
     "c08-f0-minutes": ("pulsarbat/pulsar/predictor.py", "coeffs[1] += float(f0) * 60", "coeffs[1] += float(f0)", ["C08"]),
@@ -138,6 +152,7 @@ MUTANTS = {
 
 # behaviour-preserving edits: no check may fire
 NEUTRAL = {
+    "n-c11-contains-edge": ("pulsarbat/readers/_base.py", "        return edge & (t0 <= t) & (t < t1)", "        return edge & (t0 <= t) & (t <= t1)", ["C11"]),
     "n-c08-merge-min": ("pulsarbat/pulsar/predictor.py", "                    start = min(start, next_start)\n", "                    start = next_start\n", ["C08"]),
     "n-c19-mix-sign": ("pulsarbat/utils.py", "z *= np.exp(-1j * np.pi / 2 * np.arange(N))[tuple(ind)]", "z *= np.exp(+1j * np.pi / 2 * np.arange(N))[tuple(ind)]", ["C19"]),
     "n-c19-slice-plus1": ("pulsarbat/utils.py", "    h[1 : N // 2] = 2", "    h[1 : N // 2 + 1] = 2", ["C19"]),
